@@ -165,6 +165,7 @@ def build_reference(repo: str) -> dict:
         strip_local_annotations(tree)
         inline_return_temps(tree)
         inline_test_temps(tree)
+        normalise_if_polarity(tree)
         for q, fn in top_level_functions(tree):
             order = renamable_names(fn)
             if order:
@@ -313,6 +314,43 @@ def inline_test_temps(tree: ast.Module) -> int:
     return n
 
 
+_NEG_OP = {ast.IsNot: ast.Is, ast.NotEq: ast.Eq, ast.NotIn: ast.In, ast.GtE: ast.Lt, ast.Gt: ast.LtE}
+
+
+def _swappable(node: ast.If) -> bool:
+    """A two-armed `if` that is not part of an `elif` chain on either side."""
+    return bool(node.orelse) and not (len(node.orelse) == 1 and isinstance(node.orelse[0], ast.If)) and not (len(node.body) == 1 and isinstance(node.body[0], ast.If))
+
+
+class _IfPolarity(ast.NodeTransformer):
+    """`if not X: A else: B` -> `if X: B else: A`; `if a is not b: A else: B` -> `if a is b: B else: A` (likewise
+    !=, not in, >=, >).  Which arm of a two-armed `if` comes first is a matter of taste; the rules see one form."""
+
+    def __init__(self):
+        self.n = 0
+
+    def visit_If(self, node):
+        self.generic_visit(node)
+        if not _swappable(node):
+            return node
+        t = node.test
+        if isinstance(t, ast.UnaryOp) and isinstance(t.op, ast.Not):
+            node.test = t.operand
+        elif isinstance(t, ast.Compare) and len(t.ops) == 1 and type(t.ops[0]) in _NEG_OP:
+            node.test = ast.copy_location(ast.Compare(left=t.left, ops=[_NEG_OP[type(t.ops[0])]()], comparators=t.comparators), t)
+        else:
+            return node
+        node.body, node.orelse = node.orelse, node.body
+        self.n += 1
+        return node
+
+
+def normalise_if_polarity(tree: ast.Module) -> int:
+    v = _IfPolarity()
+    v.visit(tree)
+    return v.n
+
+
 class _LocalAnnotationStripper(ast.NodeTransformer):
     def __init__(self):
         self.depth = 0
@@ -352,6 +390,7 @@ def canonicalise_module(modname: str, tree: ast.Module) -> int:
     strip_local_annotations(tree)
     inline_return_temps(tree)
     inline_test_temps(tree)
+    normalise_if_polarity(tree)
     ref = load_reference()
     n = 0
     for q, fn in top_level_functions(tree):
